@@ -164,6 +164,7 @@ def rule_shebang(ck: Check, repo: Repo) -> None:
             r.violation(q, "place_header operands", f"{pa}; expected {['<the created header>'] + want[1:]}", repo.loc(ph[0]))
         if "if style.SHEBANGS:" not in ast.unparse(fn):
             r.violation(q, "shebang table not consulted", "", repo.loc(fn))
+    shebang_decision(r, repo)
     es = repo.func(f"{HD}._extract_shebang")
     src = re.sub(r"\s+", " ", ast.unparse(es))
     from ..rules import deep_text as _dt
@@ -173,6 +174,77 @@ def rule_shebang(ck: Check, repo: Repo) -> None:
     r.instance("_extract_shebang", {"ok": ok})
     if not ok:
         r.violation(f"{HD}._extract_shebang", "extraction", "leading lines with the prefix are moved (kept verbatim, ends included)", repo.loc(es))
+
+
+def shebang_decision(r, repo: Repo) -> None:
+    """find_and_replace_header: a first-line declaration is split off the found HEADER block only when nothing but
+    blanks precedes that block, and off the rest of the text only when nothing at all precedes it.  Decided as a table
+    over {header starts with it, text before is blank, rest starts with it, anything before}."""
+    q = f"{HD}.find_and_replace_header"
+    fn = repo.func(q)
+
+    class H(Hooks):
+        def atom(self, text, node, it):
+            t = text.replace("__in_loop", "")
+            if re.fullmatch(r"\w+\.SHEBANGS", t):
+                return "@style_has_declarations"
+            if t == "header.startswith(shebang)":
+                return "@header_starts_with_it"
+            if t == "after.startswith(shebang)":
+                return "@rest_starts_with_it"
+            if t == "before.strip()":
+                return "@text_before_not_blank"
+            if t in ("any(before, header)", "any((before, header))", "before or header"):
+                return "@something_before"
+            return None
+
+        def event(self, text, call, it):
+            if ast.unparse(call.func) == "_extract_shebang":
+                return ("extract", [it.text(a).replace("__in_loop", "") for a in call.args])
+            return None
+
+        def raises(self, text, call, it):
+            return []
+
+    def ref(v):
+        if not v("@style_has_declarations"):
+            return []
+        if v("@header_starts_with_it") and not v("@text_before_not_blank"):
+            return [("extract", ["shebang", "header"])]
+        if v("@rest_starts_with_it") and not v("@something_before"):
+            return [("extract", ["shebang", "after"])]
+        return []
+
+    leaves = tabulate(fn, H(), ref)
+    seen = set()
+    n = 0
+    for d, leaf, exp in leaves:
+        short = {k.split("::")[-1]: v for k, v in d.items()
+                 if k.split("::")[-1] in ("@style_has_declarations", "@header_starts_with_it", "@rest_starts_with_it", "@text_before_not_blank", "@something_before")
+                 or (k.split("::")[-1].startswith("?") and "shebang" in k)}
+        if not d.get("@style_has_declarations"):
+            continue  # style without first-line declarations: the loop is not entered
+        got = []
+        for e in leaf.events:
+            while e[0] == "each":
+                e = e[2]
+            if e[0] == "extract":
+                got.append(e)
+        key = (tuple(sorted(short.items())), repr(got))
+        if key in seen:
+            continue
+        seen.add(key)
+        n += 1
+        r.instance("shebang-cell:" + show_valuation(short), {"valuation": show_valuation(short), "moved": [g[1] for g in got]})
+        if got != exp:
+            free = [a[1:] for a in short if a.startswith("?")]
+            r.violation(q, f"[{show_valuation(short)}] first-line declaration handling",
+                        f"moves {[g[1] for g in got]}; the specification says {[g[1] for g in exp]}"
+                        + (f" - the decision depends on {free[0]!r}; a declaration may be split off a block only when nothing"
+                           f" (but blanks) precedes THAT block, otherwise everything in front of it is overwritten" if free else ""),
+                        f"{repo.module(HD).rel}:{leaf.trace[-1] if leaf.trace else fn.lineno}", {"valuation": d})
+    r.floor(4, "first-line declaration cells", got=n)
+
 
 
 def rule_partition(ck: Check, repo: Repo, rid: str = "R4") -> None:
